@@ -82,7 +82,20 @@ type authScenario struct {
 	CTag int `json:"ctag,omitempty"`
 	PTag int `json:"ptag,omitempty"`
 	JTag int `json:"jtag,omitempty"`
+	// Pre, when present with a route other than "none": what the caller does with the public accessors around the
+	// check (Auth_gen.tla, action CallerEdit)
+	Pre *absPre `json:"pre,omitempty"`
 }
+
+// absPre: the caller reads a power-levels content through a public accessor (Route) and edits what it got (Edit),
+// before the check ("ec") or between two checks ("cec").
+type absPre struct {
+	Route string `json:"route"`
+	Edit  string `json:"edit"`
+	Order string `json:"order"`
+}
+
+func (sc *authScenario) hasPre() bool { return sc.Pre != nil && sc.Pre.Route != "" && sc.Pre.Route != "none" }
 
 // ladders realise ranks 0..4 as concrete levels; rank 1 is always 0 and rank 3 always 50.
 var ladders = [][5]int64{
@@ -288,6 +301,8 @@ type concreteAuth struct {
 	Provider *gmsl.AuthEvents
 	All      []gmsl.PDU // the provider's events
 	ByKey    map[string]gmsl.PDU
+	Lad      [5]int64 // the ladder the ranks were realised with
+	Variant  int
 }
 
 type authIDs struct {
@@ -650,7 +665,121 @@ func concretise(sc *authScenario, variant int) (*concreteAuth, error) {
 	if err != nil {
 		return nil, err
 	}
-	return &concreteAuth{Event: judged, Provider: prov, All: events}, nil
+	return &concreteAuth{Event: judged, Provider: prov, All: events, Lad: lad, Variant: variant}, nil
+}
+
+// callerEdit performs the caller's part of a scenario with a pre-step: a power-levels content is read through the
+// public accessor named by pre.Route and the value obtained - the caller's own copy - is edited IN PLACE (its fields
+// and the maps it carries).  Returns a description of what was done ("" if the accessor gave nothing to edit).
+func callerEdit(sc *authScenario, c *concreteAuth) string {
+	pre := sc.Pre
+	var cur gmsl.PDU
+	for _, p := range c.All {
+		if p.Type() == "m.room.power_levels" && p.StateKeyEquals("") {
+			cur = p
+		}
+	}
+	var pl *gmsl.PowerLevelContent
+	var target *absPL // what "to_other" turns the copy into
+	switch pre.Route {
+	case "state.PowerLevels":
+		if cur == nil {
+			return ""
+		}
+		pl, _ = cur.PowerLevels()
+		target = &sc.Ev.NewPL
+	case "state.FromEvent":
+		if cur == nil {
+			return ""
+		}
+		if v, err := gmsl.NewPowerLevelContentFromEvent(cur); err == nil {
+			pl = &v
+		}
+		target = &sc.Ev.NewPL
+	case "state.FromAuthEvents":
+		if v, err := gmsl.NewPowerLevelContentFromAuthEvents(c.Provider, userIDs["creator"]); err == nil {
+			pl = &v
+		}
+		target = &sc.Ev.NewPL
+	case "event.PowerLevels":
+		if c.Event.Type() != "m.room.power_levels" || !c.Event.StateKeyEquals("") {
+			return ""
+		}
+		pl, _ = c.Event.PowerLevels()
+		target = &sc.St.PL.C
+	case "event.FromEvent":
+		if c.Event.Type() != "m.room.power_levels" {
+			return ""
+		}
+		if v, err := gmsl.NewPowerLevelContentFromEvent(c.Event); err == nil {
+			pl = &v
+		}
+		target = &sc.St.PL.C
+	default:
+		panic("unknown accessor route " + pre.Route)
+	}
+	if pl == nil {
+		return "" // the content does not parse: nothing was handed out
+	}
+	level := func(r int, dflt int64) int64 {
+		switch {
+		case r < 0:
+			return dflt
+		case r == 8:
+			return 1<<53 - 1
+		}
+		return c.Lad[r]
+	}
+	wipe := func(m map[string]int64) {
+		for k := range m {
+			delete(m, k)
+		}
+	}
+	fill := func(mp *map[string]int64, src map[string]int, keyOf func(string) string) {
+		wipe(*mp)
+		for k, r := range src {
+			if r >= 0 {
+				if *mp == nil {
+					*mp = map[string]int64{}
+				}
+				(*mp)[keyOf(k)] = level(r, 0)
+			}
+		}
+	}
+	switch pre.Edit {
+	case "to_other":
+		t := target
+		pl.Ban, pl.Kick, pl.Invite, pl.Redact = level(t.Ban, 50), level(t.Kick, 50), level(t.Invite, 0), level(t.Redact, 50)
+		pl.EventsDefault, pl.StateDefault, pl.UsersDefault = level(t.EventsDefault, 0), level(t.StateDefault, 50), level(t.UsersDefault, 0)
+		colliding := collidingName(sc)
+		fill(&pl.Users, t.Users, func(k string) string { return userIDs[k] })
+		fill(&pl.Events, t.Events, func(k string) string {
+			if k == "custom" && colliding != "" {
+				return colliding
+			}
+			return evTypeName(k, c.Variant)
+		})
+		fill(&pl.Notifications, t.Notif, func(k string) string {
+			if k == "here" && colliding != "" {
+				return colliding
+			}
+			return k
+		})
+	case "wipe", "lift":
+		wipe(pl.Users)
+		wipe(pl.Events)
+		wipe(pl.Notifications)
+		pl.Ban, pl.Kick, pl.Invite, pl.Redact, pl.EventsDefault, pl.StateDefault, pl.UsersDefault = 0, 0, 0, 0, 0, 0, 0
+		if pre.Edit == "lift" {
+			if pl.Users == nil {
+				pl.Users = map[string]int64{}
+			}
+			pl.Users[userIDs[sc.Ev.Sender]] = 1<<53 - 1
+		}
+	default:
+		panic("unknown edit " + pre.Edit)
+	}
+	return fmt.Sprintf("the caller read a power-levels content through %s and edited the value it got (%s)", pre.Route, pre.Edit)
 }
 
 // scenarioKey is the canonical abstract key of a scenario (for known findings and grouping).
